@@ -277,3 +277,37 @@ void preempt_reset(int pct_d)
 	g_lowprio = 0;
 	g_sim.pct_left = pct_d;
 }
+
+/* ------------------------------------------------ seams used by http_get */
+#include <netdb.h>
+#include <sys/socket.h>
+#include <netinet/in.h>
+struct hostent *__real_gethostbyname(const char *name);
+int __real_socket(int d, int t, int p);
+int __real_connect(int fd, const struct sockaddr *a, socklen_t l);
+Conn *(*g_http_connect_hook)(void);     /* scenario provides the connection a socket() call gets */
+
+struct hostent *__wrap_gethostbyname(const char *name)
+{
+	static struct hostent he; static char *addrs[2]; static struct in_addr ia; static char hname[130];
+	if (t_task < 0 || !g_http_connect_hook) return __real_gethostbyname(name);
+	snprintf(hname, sizeof(hname), "%s", name);
+	ia.s_addr = htonl(0x0a000001);
+	addrs[0] = (char *)&ia; addrs[1] = NULL;
+	he.h_name = hname; he.h_aliases = NULL; he.h_addrtype = AF_INET; he.h_length = 4; he.h_addr_list = addrs;
+	sim_yield(EV_NOTE, 1, 0);
+	return &he;
+}
+int __wrap_socket(int d, int t, int p)
+{
+	if (t_task < 0 || !g_http_connect_hook) return __real_socket(d, t, p);
+	Conn *c = g_http_connect_hook();
+	sim_yield(EV_NOTE, 2, 0);
+	return c ? c->fd[0] : -1;
+}
+int __wrap_connect(int fd, const struct sockaddr *a, socklen_t l)
+{
+	if (t_task < 0 || !net_is_simfd(fd)) return __real_connect(fd, a, l);
+	sim_yield(EV_NOTE, 3, 0);
+	return 0;
+}
